@@ -12,12 +12,13 @@
 (* verdicts come from layer 1) and the replay goes on from the recorded    *)
 (* state, so the rest of the trace is still checked.                       *)
 (***************************************************************************)
-EXTENDS PipelineOps, NetSimplexOps, Json, IOUtils
+EXTENDS PipelineOps, NSPositionOps, Json, IOUtils
 
 Trace == ndJsonDeserialize(IOEnv.VERIF_TRACE)
 
 CONSTANTS NSMaxNodes, NSMaxEdges,     \* size bounds for the layer-3 predictions (cost of evaluating the models in TLC)
-          CBMaxNodes, CBMaxEdges, POMaxNodes, WMMaxNodes, WMMaxEdges
+          CBMaxNodes, CBMaxEdges, POMaxNodes, WMMaxNodes, WMMaxEdges,
+          NPMaxAux                        \* network-simplex positioner: bound on the nodes of the auxiliary graph
 VARIABLES l, call, prev, cnt,
           xacc,     \* crossings of the orders recorded so far for the components of the current call
           out       \* the layout the collect loop of autolayout.go must return for the components recorded so far:
@@ -137,6 +138,19 @@ PODrift(c, a, s) ==
             \cup If(\A i \in DOMAIN s.nodes : 2 * s.nodes[i][5] = x2[i], "L3_XAsModelled_" \o c.p4)
             \cup If(\A i \in DOMAIN s.nodes : s.nodes[i][6] = PO!YOfLayer(G, Q * c.ls, s.nodes[i][3] + 1), "L3_YAsModelled")
 
+\* the network-simplex positioner: auxiliary graph, weighted network simplex with horizontal balancing, x from the layers
+NPApplies(c, a, s) == /\ c.p4 = "nspos" /\ Len(a.nodes) + Len(a.edges) <= NPMaxAux
+                      /\ s.exact = 1 /\ Len(s.nodes) = Len(a.nodes)
+NPDrift(c, a, s) ==
+    IF ~NPApplies(c, a, s) THEN {}
+    ELSE LET G == PosGraph(a)
+             thor == IF c.thor < 0 THEN 28 ELSE c.thor
+             R == NSPosRun(G, Q * c.ns, 4, Q, thor)
+         IN IF R.phase # "done" THEN {"L3_NSPositionerModelDidNotFinish"}
+            ELSE LET x2 == XFromRanks(G, R.rank, Q) IN
+                 If(\A i \in DOMAIN s.nodes : 2 * s.nodes[i][5] = x2[i], "L3_XAsModelled_nspos")
+                 \cup If(\A i \in DOMAIN s.nodes : s.nodes[i][6] = PO!YOfLayer(G, Q * c.ls, s.nodes[i][3] + 1), "L3_YAsModelled")
+
 \* ---- layer 3 bound to the code: the routers' points are predicted exactly (half units) from the positioned graph
 RO == INSTANCE RouteOps
 RouteGraph(a) ==
@@ -168,7 +182,7 @@ Broken(c, a, s) ==
       [] s.st = 1 -> (IF a.st = 0 THEN Contract1(c, a, s) \cup CBDrift(c, a, s) ELSE {"StageOrder"})
       [] s.st = 2 -> (IF a.st = 1 THEN Contract2(c, a, s) \cup NSDrift(c, a, s) ELSE {"StageOrder"})
       [] s.st = 3 -> (IF a.st = 2 THEN Contract3(c, a, s) \cup BLDrift(c, a, s) \cup WMDrift(c, a, s) ELSE {"StageOrder"})
-      [] s.st = 4 -> (IF a.st = 3 THEN Contract4(c, a, s) \cup PODrift(c, a, s) ELSE {"StageOrder"})
+      [] s.st = 4 -> (IF a.st = 3 THEN Contract4(c, a, s) \cup PODrift(c, a, s) \cup NPDrift(c, a, s) ELSE {"StageOrder"})
       [] s.st = 5 -> (IF a.st = 4 THEN Contract5(c, a, s) \cup RODrift(c, a, s) ELSE {"StageOrder"})
       [] s.st = 6 -> (IF a.st = 5 THEN Contract6(c, s.comp, a, s) ELSE {"StageOrder"})
       [] OTHER -> {"UnknownStage"}
@@ -207,6 +221,7 @@ TraceStage ==
                                 !.l3predictions = @ + (IF s.st = 2 /\ prev.st = 1 /\ NSApplies(call, prev, s) THEN 1 ELSE 0)
                                                     + (IF s.st = 1 /\ prev.st = 0 /\ CBApplies(call, prev, s) THEN 1 ELSE 0)
                                                     + (IF s.st = 4 /\ prev.st = 3 /\ POApplies(call, prev, s) THEN 1 ELSE 0)
+                                                    + (IF s.st = 4 /\ prev.st = 3 /\ NPApplies(call, prev, s) THEN 1 ELSE 0)
                                                     + (IF s.st = 3 /\ prev.st = 2 /\ BLApplies(call, prev, s) THEN 1 ELSE 0)
                                                     + (IF s.st = 3 /\ prev.st = 2 /\ WMApplies(call, prev, s) THEN 1 ELSE 0)
                                                     + (IF s.st = 5 /\ prev.st = 4 /\ ROApplies(call, prev, s) THEN 1 ELSE 0)]
